@@ -444,11 +444,19 @@ def run(ctx):
                 "memcmp/bcmp: every first-difference position, none, and a difference just outside the range, with unsigned-extreme byte pairs) "
                 "plus a mid-range sweep (every n in 41..=%d and around every multiple of 64 up to 1 KiB x every destination position inside a %d-byte line: memcpy, memmove overlapping either way, memset) "
                 "plus sizes sampled up to 1 MiB from VERIF_SEED, each in a pattern-filled arena with >=32-byte red zones, whole arena hashed; "
-                "distinct_nontrivial = distinct (op, n (bucketed above 48), dest mod 8, src mod 8, overlap class) classes" % (nmax, 160 if quick else 320, 64 if quick else 128))
+                "plus guard placements (accesses OUTSIDE the operands): each operand in turn - dest and src of memcpy/memmove, s1 and s2 of memcmp/bcmp, dest of memset - "
+                "ends flush against an inaccessible (PROT_NONE) page or starts right after one, the other operand at every relative misalignment (0..=15 for n<=%d, 0..=7 above) "
+                "and, for memmove, at every overlap distance, for every n of the exhaustive range and of the mid sweep, compares with equal operands and with the first difference "
+                "at the last / first / a random byte, plus multi-page operands sampled from VERIF_SEED; a load or store in such a page is reported with the case; "
+                "distinct_nontrivial = distinct (op, n (bucketed above 48), dest mod 8, src mod 8, overlap class, guard placement) classes" % (nmax, 160 if quick else 320, 64 if quick else 128, nmax))
     ctx.assumptions += [
         "the model Model/MemFns.lean describes tiny-start/src/symbols/mem.rs (checked by the correspondence streams of this run, debug and release builds of the textually included file)",
         "a word access is 8 byte reads then 8 byte writes; misaligned word reads through read_usize_unaligned are allowed (x86-64/aarch64)",
         "C's preconditions: the objects do not wrap the address space (dest+n, src+n <= 2^64); memcpy's ranges do not overlap",
+        "reads outside the operands: PROVED for the model (every load of memcpy/memmove lies in [src, src+n), of memcmp/bcmp in [s1, s1+n) or [s2, s2+n), memset loads nothing; every store lies in [dest, dest+n)) and "
+        "OBSERVED on the compiled code, debug and release: an operand is put flush against a PROT_NONE page (before / after) and any access to that page is caught by a SIGSEGV handler and reported (an over- or "
+        "under-read of up to a page next to an operand is seen, for the explored n, alignments and contents); in addition the START address of every load is recorded (PROT_NONE arena, single-stepped, debug build, "
+        "a sample) and must lie inside a source operand.  Loads further than a page away that also start inside an operand are not observable this way",
         "the harness strips #[no_mangle] so the functions are called by path; for the exported symbols themselves only a static observation is made (tiny-start built with feature mem-symbols defines the five symbols and none of their bodies calls a mem symbol)",
     ]
     ctx.trusted.append("python oracle in checks/c08.py (C semantics by bytes slicing), arena hash = little-endian integer mod 2^55-55")
@@ -456,10 +464,16 @@ def run(ctx):
     drv = [C.driver_path("drv_c08")]
     small = gen_small(ctx, nmax) + gen_mid(ctx, quick)
     big = gen_big(ctx, 96, 8) if quick else gen_big(ctx, 1600, 80)
-    for c in small + big:
-        op, size, seed, a, b, n, _ = parse(c)
+    guard = gen_guard(ctx, quick, nmax)
+    for c in small + big + guard:
+        op, size, seed, a, b, n, st = parse(c)
         s = a if op == "set" else b
-        ctx.count((op, ncls(n), a % 8, s % 8, "-" if op in ("set", "cmp", "bcm") else ovl(a, s, n)))
+        holes = [PAGE * h[1] for h in st if h[0] == "!"]
+        # which operand end touches an inaccessible page: a/b = first/second argument, E/S = its end / its start
+        tight = "".join(t for t, x in (("aE", a + n), ("aS", a - PAGE), ("bE", s + n), ("bS", s - PAGE)) if x in holes and (t[0] == "a" or op != "set"))
+        ctx.count((op, ncls(n), a % 8, s % 8, "-" if op in ("set", "cmp", "bcm") else ovl(a, s, n), tight))
+        if holes:
+            ctx.hist("guard_placement", tight or "loose-only")
         ctx.hist("ops", op)
         ctx.hist("n_class", "n<16" if n < 16 else ("16<=n<=%d" % nmax if n <= nmax else "n>%d" % nmax))
     for release in (False, True):
@@ -475,6 +489,7 @@ def run(ctx):
             ctx.violation({"kind": "constants-changed"}, {"implementation": outs[:1], "model": "word_size=8 word_mask=7 threshold=16"}, no_input=True)
         C.correspond(ctx, "small-" + mode, small, [exe], drv, judge, sig_of)
         C.correspond(ctx, "big-" + mode, big, [exe], drv, judge, sig_of)
+        C.correspond(ctx, "guard-" + mode, guard, [exe], drv, judge, sig_of)
         C.correspond(ctx, "malformed-" + mode, MALFORMED, [exe], drv,
                      lambda c, o: None if o == "bad-op" else "harness accepted a malformed case", sig_of)
     # write-set oracle (implementation vs the property, no model involved): the arena is read-only, every store of
@@ -499,9 +514,29 @@ def run(ctx):
                           {"stream": "store-trace", "case": c, "implementation": o,
                            "why": "%s stores outside [dest, dest+n), the first at dest%+d" % (kv["outside"], int(kv.get("first_outside_rel_dest", 0))),
                            "how_to_replay": "echo '%s' | %s --trace" % (c, exe)})
+    # load-trace oracle (implementation vs the property): the arena is PROT_NONE, every load and store faults and is
+    # recorded; the START of every load must lie inside a source operand (src of the copies, s1/s2 of the compares;
+    # memset must not load at all).  How far a load extends is what the guard placements above observe.
+    la_cases = [c for k, c in enumerate(small) if k % (23 if quick else 5) == 0] + [c for c in big if int(c.split()[5]) <= 5000][: (12 if quick else 100)]
+    rc, outs, _ = C.run_filter([exe, "--trace-all"], la_cases, timeout=2400)
+    st["load-trace"] = {"cases": len(la_cases), "loads_traced": 0, "outside": 0}
+    ctx.evaluations += len(la_cases)
+    if len(outs) != len(la_cases):
+        idx = len(outs)
+        ctx.violation({"stream": "load-trace", "kind": "impl-crash"}, {"case": la_cases[idx] if idx < len(la_cases) else None, "rc": rc})
+    for c, o in zip(la_cases, outs):
+        kv = dict(x.split("=", 1) for x in o.split() if "=" in x)
+        st["load-trace"]["loads_traced"] += int(kv.get("loads", 0))
+        if int(kv.get("loads_outside", 0)) != 0 or int(kv.get("outside", 0)) != 0 or "trace-truncated" in o:
+            st["load-trace"]["outside"] += 1
+            ctx.violation({"op": c.split()[0], "kind": "load outside the operands" if int(kv.get("loads_outside", 0)) else "store outside the destination range"},
+                          {"stream": "load-trace", "case": c, "implementation": o,
+                           "why": "%s loads start outside the source operand(s), the first at arena offset %s; %s stores outside [dest, dest+n)" % (
+                               kv.get("loads_outside"), kv.get("first_load_outside_at"), kv.get("outside")),
+                           "how_to_replay": "echo '%s' | %s --trace-all" % (c, exe)})
     exported_symbols(ctx)
     exe, _ = build(ctx, False)
-    picks = [small[0], small[len(small) // 3], small[len(small) // 2], small[-1], big[0], big[-1]]
+    picks = [small[0], small[len(small) // 3], small[len(small) // 2], small[-1], big[0], big[-1], guard[len(guard) // 3], guard[-1]]
     _, outs, _ = C.run_filter([exe], picks)
     for c, o in zip(picks, outs):
         ctx.sample({"case": c, "implementation": o})
